@@ -311,8 +311,21 @@ def oracle_cli(case):
     os.makedirs(WORK_DIR, exist_ok=True)
     path = os.path.join(WORK_DIR, f"c17_{os.getpid()}.cif")
     csvp = path + ".csv"
+    extra, dialect = EXTRA, None
+    if case.get("entities"):
+        # a deposited-style file: entity tables, and (if drawn) the last nucleotide residue as a bound ligand of a
+        # non-polymer entity - "nucleic acid only" is about nucleotides, whatever entity they belong to
+        nucs = []
+        for a in atoms:
+            k = (a["chain"], a["resseq"], a["icode"])
+            if a["resname"] in ("A", "G") and k not in nucs:
+                nucs.append(k)
+        ligands = [list(nucs[-1])] if (case["entities"] == "with-ligand" and len(nucs) >= 2) else []
+        extra = EXTRA + "\n#\n" + atomtab.entity_categories(atoms, ligands)
+        dialect = {"entities": True, "ligands": ligands}
+        case["_ligand"] = bool(ligands)
     with open(path, "w") as f:
-        f.write(atomtab.emit_cif(atoms, "?", extra_categories=EXTRA))
+        f.write(atomtab.emit_cif(atoms, "?", extra_categories=extra, dialect=dialect))
     out = []
     flags_all = ["--ignore-occupancy", "--ignore-autoclashes", "--nucleic-acid-only", "--require-same-atom-name", "--enable-molprobity-mode"]
     try:
@@ -433,6 +446,8 @@ def classify(case):
         labs.append("two-residues-at-one-position")
     if any(len(set(r["names"])) < len(r["names"]) for r in rs):
         labs.append("two-atoms-of-one-name-in-a-residue")
+    if case.get("entities"):
+        labs.append("mmcif-with-entity-tables" + ("-and-a-nucleotide-ligand" if case.get("_ligand") else ""))
     if case.get("kind") == "cli":
         return info["clashes"] >= 3, labs
     return info["clashes"] >= 3 and info["sums"] >= 2, labs
@@ -482,7 +497,7 @@ def run_shard(spec) -> ShardResult:
                        to_json=to_json, classify=classify, sample_cap=1)
     elif spec["kind"] == "cli":
         strat = st.tuples(st_cases(), st.lists(st.lists(st.booleans(), min_size=5, max_size=5), min_size=1, max_size=3)).map(
-            lambda t: dict(t[0], kind="cli", cli_options=t[1]))
+            lambda t: dict(t[0], kind="cli", cli_options=t[1], entities=[None, "tables", "with-ligand", "with-ligand"][(len(t[1]) + sum(map(sum, t[1]))) % 4]))
         run_hypothesis(PROP_ID, strat, oracle, seed=spec["seed"], max_examples=spec["examples"], result=res,
                        to_json=to_json, classify=classify, sample_cap=1)
     else:
